@@ -144,6 +144,7 @@ def required_cells(tier):
         "scale:extreme": 3, "scale:moderate": 3, "scale_cells_compared": 50,
         "reassign:alpha": 1, "reassign:zeta": 1, "reassign:cutoff": 1,
         "reassign:temperature": 1, "reassign:cutoff_type": 1,
+        "cc:finite-memory-literal-zero": 1,
         "reassign-copy:copy.copy": 2, "reassign-copy:Bath.correlations": 2,
         "reassign-copy:copy.deepcopy": 2,
     }
@@ -1139,12 +1140,31 @@ def run_cc(case):
         cmax = abs(cfun(0.0))
         desc = {"family": "modes", "w": ws, "g": gs, "T": ts}
         rate = max(ws)
+    finite_memory = False
+    if fam == "exp" and i % 8 == 6:
+        # a finite-memory callable as the class documentation describes it:
+        # the literal 0.0 beyond tau_max = 1 (where the function has decayed
+        # to < 1e-10 of C(0): the truncation itself is immaterial)
+        finite_memory = True
+        amps = [complex(rng.uniform(0.2, 2.0), rng.uniform(-1.0, 1.0))]
+        zs = [complex(rng.uniform(25.0, 40.0), rng.uniform(-40.0, 40.0))]
+        base, f_pos, fp_pos = rb2.exp_family(amps, zs)
+        cmax = abs(amps[0])
+        desc = {"family": "exp-finite-memory", "amps": amps, "z": zs}
+        rate = abs(zs[0])
+
+        def cfun(t, base=base):
+            if abs(t) >= 1.0:
+                return 0.0
+            return base(t)
     f_ext = rb2.ext(f_pos)
     eps = [None, 1e-6, 1e-9][(i // 2 + i // 6) % 3]
     epskw = {} if eps is None else {"epsrel": eps}
     dt = float(10 ** rng.uniform(-1.3, 0.2)) / max(rate, 0.5) * 2.0
     obj = oqupy.CustomCorrelations(cfun)
     cells_cov = ["cc:" + fam, "eps:default" if eps is None else "eps:explicit"]
+    if finite_memory:
+        cells_cov.append("cc:finite-memory-literal-zero")
     menu = _full_menu(rng, dt, i)
     names = list(menu)
     smooth_names = [n for n in names if n not in STRADDLE]
